@@ -32,7 +32,7 @@ func init() {
 			"one fid per path at a time (freshly walked for each step), as the statement's 'freshly walked fids' suggests; uid/gid changes are not exercised (they need the host's user database)",
 		},
 		Shards:   shards(8, 16),
-		Timeout:  timeouts(4*time.Minute, 40*time.Minute),
+		Timeout:  timeouts(12*time.Minute, 90*time.Minute),
 		MinEvals: 300,
 		Required: []string{"op:create", "op:mkdir", "op:open-io", "op:open-trunc", "op:chmod", "op:rename", "op:rename-onto-existing", "op:truncate", "op:truncate-same-fid", "op:multi-wstat", "op:remove", "op:remove-nonempty-dir", "snapshots_compared", "stats_compared", "listings_compared", "reads_compared"},
 		Run:      runC19,
